@@ -940,6 +940,8 @@ func TestThreshold(t *testing.T) {
 //   hist   {svc(8), h(32), f, cap} slot = E_8(w7') ++ cap bytes                       (historical_lookup, refine)
 //   export {data}                 slot = E_8(w7')                                      (refine)
 //   info   {}                     slot = E_8(w7') ++ 96 bytes                          (accumulate: info on the caller)
+//   xfer   {to, amt, l}           slot = E_8(w7')                                      (accumulate: transfer)
+//   ckpt   {}                     slot = E_8(w7')                                      (accumulate: checkpoint)
 // endings: halt (output = all slots), halt0 (empty output), echo (halt at once: output = the argument), trap, spin (runs out of gas), badblob (the standard-program
 // header is cut short: Y(p) is undefined).  Accumulate programs first store their invocation argument under storage key
 // "a" and, before halting, the slots under key "o" (Psi_A hands back no output blob).
@@ -1076,6 +1078,18 @@ func ivAssemble(kind string, script []any, end string) (*ivAsm, []byte) {
 			a.ecalli(uint64(ExportOp))
 			a.store(7, at)
 			at += 8
+		case "xfer": // transfer {to(8), amt(8), l(8)}: slot = E_8(w7')
+			a.load(7, vfd.FromU64LE(o["to"]))
+			a.load(8, vfd.FromU64LE(o["amt"]))
+			a.load(9, vfd.FromU64LE(o["l"]))
+			a.load(10, a.put(make([]byte, types.TransferMemoSize)))
+			a.ecalli(uint64(TransferOp))
+			a.store(7, at)
+			at += 8
+		case "ckpt": // checkpoint: slot = E_8(w7') (the remaining gas)
+			a.ecalli(uint64(CheckpointOp))
+			a.store(7, at)
+			at += 8
 		case "info":
 			a.load(7, ^uint64(0))
 			a.load(8, at+8)
@@ -1154,7 +1168,7 @@ func TestInvocations(t *testing.T) {
 		asm, blob := ivAssemble(kind, hcList(c["script"]), vfd.S(c["end"]))
 		codecase := vfd.S(c["codecase"])
 		rec := map[string]any{"ev": "Inv", "case": c, "ninstr": asm.ninstr, "ncalls": asm.ncalls, "gopanic": "",
-			"res": "", "out": []int{}, "used": vfd.U64LE(0), "exports": []any{}, "bal": vfd.U64LE(0), "sta": []int{}, "sto": []int{}, "hasa": false, "haso": false}
+			"res": "", "out": []int{}, "used": vfd.U64LE(0), "exports": []any{}, "bal": vfd.U64LE(0), "sta": []int{}, "sto": []int{}, "hasa": false, "haso": false, "xfers": []any{}, "bals": []any{}}
 		fx := hcObj(c["fx"])
 		// the work package and the extrinsic data, as fetch's environment describes them
 		xspecs, xmap := [][]types.ExtrinsicSpec{}, ExtrinsicDataMap{}
@@ -1286,6 +1300,21 @@ func TestInvocations(t *testing.T) {
 				r := Psi_A(ps, types.TimeSlot(hcU32(c["t"])), self, types.Gas(vfd.FromU64LE(c["gas"])), ops, eta, types.StateKeyVals{})
 				rec["used"] = vfd.U64LE(uint64(r.Gas))
 				rec["res"] = "ran"
+				xf := []any{}
+				for _, t := range r.DeferredTransfers {
+					xf = append(xf, []any{hcLE4(uint32(t.SenderID)), hcLE4(uint32(t.ReceiverID)), vfd.U64LE(uint64(t.Balance))})
+				}
+				rec["xfers"] = xf
+				ids := make([]int, 0, len(r.PartialStateSet.ServiceAccounts))
+				for id := range r.PartialStateSet.ServiceAccounts {
+					ids = append(ids, int(id))
+				}
+				sort.Ints(ids)
+				bals := []any{}
+				for _, id := range ids {
+					bals = append(bals, []any{hcLE4(uint32(id)), vfd.U64LE(uint64(r.PartialStateSet.ServiceAccounts[types.ServiceID(id)].ServiceInfo.Balance))})
+				}
+				rec["bals"] = bals
 				if a, ok := r.PartialStateSet.ServiceAccounts[self]; ok {
 					rec["bal"] = vfd.U64LE(uint64(a.ServiceInfo.Balance))
 					if v, ok := a.StorageDict["a"]; ok {
